@@ -61,7 +61,7 @@ Section Inst.
 
   Definition group_guards : list bool :=
     let l := parse mn cl st doc in
-    [ guard_F13a l; guard_F13b tk l; guard_F01e l ].
+    [ guard_F13a l; guard_F13b tk l ].
 End Inst.
 
 Definition run_groups (cases : list (input * gobs)) : list N :=
